@@ -410,32 +410,67 @@ theorem sine_invalid_stops (p : SineP F) (t : Int) (n : Nat) (h : sineInvalid o 
   unfold sinePace sinePaceX
   rw [if_pos h]
 
-/-- `SinePacer.Pace` has no partial operation on any path (float division, the float→integer
-conversions and the wrapping additions are total), whatever the float operations do. -/
+/-- Case analysis of `sinePaceX` (repaired code): the five ways to an answer. -/
+theorem aux_sinePaceX_cases (p : SineP F) (t : Int) (n : Nat) :
+    (sineInvalid o p = true ∧ sinePaceX o p t n = (.stop, .invalid)) ∨
+    (sineInvalid o p = false ∧ (n : Int) < o.toUInt64 (sineHits o p t) ∧
+      sinePaceX o p t n = (.wait 0, .behind)) ∨
+    (sineInvalid o p = false ∧ ¬ (n : Int) < o.toUInt64 (sineHits o p t) ∧
+      (sineIter o p t n 5 (sineFirstGuess o p t n)).2 = true ∧
+      sinePaceX o p t n = (.wait (sineIter o p t n 5 (sineFirstGuess o p t n)).1, .converged)) ∨
+    (sineInvalid o p = false ∧ ¬ (n : Int) < o.toUInt64 (sineHits o p t) ∧
+      (sineIter o p t n 5 (sineFirstGuess o p t n)).2 = false ∧
+      sinePaceX o p t n = (.stop, .nobracket)) ∨
+    (sineInvalid o p = false ∧ ¬ (n : Int) < o.toUInt64 (sineHits o p t) ∧
+      (sineIter o p t n 5 (sineFirstGuess o p t n)).2 = false ∧
+      sinePaceX o p t n =
+        (.wait (sineBisect o p t n 64 0 (o.toInt64 (sineHi o p t n))).1,
+         (sineBisect o p t n 64 0 (o.toInt64 (sineHi o p t n))).2)) := by
+  unfold sinePaceX
+  by_cases hv : sineInvalid o p = true
+  · left; exact ⟨hv, by rw [if_pos hv]⟩
+  · have hv' : sineInvalid o p = false := by simpa using hv
+    rw [if_neg hv]
+    by_cases hb : (n : Int) < o.toUInt64 (sineHits o p t)
+    · right; left; exact ⟨hv', hb, by rw [if_pos hb]⟩
+    · rw [if_neg hb]
+      simp only []
+      by_cases hc : (sineIter o p t n 5 (sineFirstGuess o p t n)).2 = true
+      · right; right; left; exact ⟨hv', hb, hc, by rw [if_pos hc]⟩
+      · have hc' : (sineIter o p t n 5 (sineFirstGuess o p t n)).2 = false := by simpa using hc
+        rw [if_neg hc]
+        split
+        · right; right; right; left; exact ⟨hv', hb, hc', rfl⟩
+        · right; right; right; right; exact ⟨hv', hb, hc', rfl⟩
+
+/-- `SinePacer.Pace` has no partial operation on any path (float division, `math.Ceil`, the
+float→integer conversions, the wrapping additions and the halving are total), whatever the float
+operations do. -/
 theorem sine_never_panics (p : SineP F) (t : Int) (n : Nat) : sinePace o p t n ≠ .panic := by
-  unfold sinePace sinePaceX
-  split
-  · exact PaceOut.noConfusion
-  · split <;> exact PaceOut.noConfusion
+  unfold sinePace
+  rcases aux_sinePaceX_cases o p t n with h | h | h | h | h
+  · rw [h.2]; exact PaceOut.noConfusion
+  · rw [h.2.2]; exact PaceOut.noConfusion
+  · rw [h.2.2.2]; exact PaceOut.noConfusion
+  · rw [h.2.2.2]; exact PaceOut.noConfusion
+  · rw [h.2.2.2]; exact PaceOut.noConfusion
 
 /-- A positive wait is returned only when the count has reached the schedule as computed:
 `hits ≥ uint64(H(t))`, and the configuration is valid. -/
 theorem sine_positive_wait_on_schedule (p : SineP F) (t : Int) (n : Nat) (d : Int)
     (h : sinePace o p t n = .wait d) (hd : 0 < d) :
     sineInvalid o p = false ∧ o.toUInt64 (sineHits o p t) ≤ (n : Int) := by
-  unfold sinePace sinePaceX at h
-  split at h
-  · exact absurd h PaceOut.noConfusion
-  · rename_i hv
-    split at h
-    · injection h with h; omega
-    · rename_i hb
-      exact ⟨by simpa using hv, by omega⟩
+  unfold sinePace at h
+  rcases aux_sinePaceX_cases o p t n with hc | hc | hc | hc | hc
+  · rw [hc.2] at h; exact absurd h PaceOut.noConfusion
+  · rw [hc.2.2] at h; injection h with h; omega
+  · exact ⟨hc.1, by omega⟩
+  · exact ⟨hc.1, by omega⟩
+  · exact ⟨hc.1, by omega⟩
 
 theorem aux_sineIter_converged (p : SineP F) (t : Int) (n : Nat) :
     ∀ (k : Nat) (g : Int), (sineIter o p t n k g).2 = true →
-      o.lt (o.abs (o.sub (o.ofUInt64 (wrapU64 ((n : Int) + 1)))
-        (sineHits o p (wrapS64 (t + (sineIter o p t n k g).1))))) o.em3 = true := by
+      o.lt (o.abs (sineErr o p t n (sineIter o p t n k g).1)) o.em3 = true := by
   intro k
   induction k with
   | zero => intro g h; simp [sineIter] at h
@@ -444,32 +479,182 @@ theorem aux_sineIter_converged (p : SineP F) (t : Int) (n : Nat) :
     unfold sineIter at h ⊢
     simp only [] at h ⊢
     split
-    · rename_i hc; simpa using hc
+    · rename_i hc; unfold sineErr; simpa using hc
     · rename_i hc
       rw [if_neg hc] at h
       exact ih _ h
 
-/-- A return from inside the inversion loop is a converged one: the schedule at the prescribed
+/-- A return from inside the fixed-point loop is a converged one: the schedule at the prescribed
 release instant is within 1e-3 hits of the new count, `|hits + 1 − H(t + wait)| < 1e-3`
-(as computed).  The exit after the fifth iteration carries no such guarantee — that is where the
-unchanged code runs away when the amplitude approaches the mean. -/
+(as computed). -/
 theorem sine_converged_exit (p : SineP F) (t : Int) (n : Nat) (w : Int)
     (h : sinePaceX o p t n = (.wait w, .converged)) :
-    o.lt (o.abs (o.sub (o.ofUInt64 (wrapU64 ((n : Int) + 1)))
-      (sineHits o p (wrapS64 (t + w))))) o.em3 = true := by
-  unfold sinePaceX at h
-  split at h
-  · simp at h
-  · split at h
-    · simp at h
-    · simp only [Prod.mk.injEq, PaceOut.wait.injEq] at h
-      obtain ⟨hw, hx⟩ := h
-      have hconv : (sineIter o p t n 5 (sineFirstGuess o p t n)).2 = true := by
-        by_cases hc : (sineIter o p t n 5 (sineFirstGuess o p t n)).2 = true
-        · exact hc
-        · rw [if_neg hc] at hx; exact absurd hx (by decide)
+    o.lt (o.abs (sineErr o p t n w)) o.em3 = true := by
+  have hbis : ∀ k lo up, (sineBisect o p t n k lo up).2 ≠ .converged := by
+    intro k
+    induction k with
+    | zero => intro lo up; simp [sineBisect]
+    | succ k ih =>
+      intro lo up
+      unfold sineBisect
+      split
+      · simp only []
+        split
+        · simp
+        · split
+          · exact ih _ _
+          · exact ih _ _
+      · simp
+  rcases aux_sinePaceX_cases o p t n with hc | hc | hc | hc | hc
+  · rw [hc.2] at h; simp at h
+  · rw [hc.2.2] at h; simp at h
+  · rw [hc.2.2.2] at h
+    simp only [Prod.mk.injEq, PaceOut.wait.injEq, and_true] at h
+    rw [← h]
+    exact aux_sineIter_converged o p t n 5 _ hc.2.2.1
+  · rw [hc.2.2.2] at h; simp at h
+  · rw [hc.2.2.2] at h
+    simp only [Prod.mk.injEq, PaceOut.wait.injEq] at h
+    exact absurd h.2 (hbis _ _ _)
+
+/-- The bracket invariant of the bisection, as computed: the error at the lower end is positive
+(`H(t+lo) < hits+1`), the error at the upper end is not (`hits+1 ≤ H(t+up)`, unless NaN). -/
+def Bracket (p : SineP F) (t : Int) (n : Nat) (lo up : Int) : Prop :=
+  o.lt o.zero (sineErr o p t n lo) = true ∧ o.lt o.zero (sineErr o p t n up) = false
+
+theorem aux_sineBisect_bisected (p : SineP F) (t : Int) (n : Nat) :
+    ∀ (k : Nat) (lo up : Int), (sineBisect o p t n k lo up).2 = .bisected →
+      o.lt (o.abs (sineErr o p t n (sineBisect o p t n k lo up).1)) o.em3 = true := by
+  intro k
+  induction k with
+  | zero => intro lo up h; simp [sineBisect] at h
+  | succ k ih =>
+    intro lo up h
+    unfold sineBisect at h ⊢
+    split
+    · rename_i hw
+      rw [if_pos hw] at h
+      simp only [] at h ⊢
+      split
+      · rename_i hc; exact hc
+      · rename_i hc
+        rw [if_neg hc] at h
+        split
+        · rename_i hpos; rw [if_pos hpos] at h; exact ih _ _ h
+        · rename_i hpos; rw [if_neg hpos] at h; exact ih _ _ h
+    · rename_i hw; rw [if_neg hw] at h; simp at h
+
+/-- The bisection keeps the bracket invariant by its own branch conditions — NO assumption on the
+float operations — so a `.bracket` exit returns the upper end of a bracket at most 1ns wide. -/
+theorem aux_sineBisect_bracket (p : SineP F) (t : Int) (n : Nat) :
+    ∀ (k : Nat) (lo up : Int), Bracket o p t n lo up →
+      (sineBisect o p t n k lo up).2 = .bracket →
+        ∃ lo', Bracket o p t n lo' (sineBisect o p t n k lo up).1 ∧
+          ¬ 1 < wrapS64 ((sineBisect o p t n k lo up).1 - lo') := by
+  intro k
+  induction k with
+  | zero => intro lo up _ h; simp [sineBisect] at h
+  | succ k ih =>
+    intro lo up hinv h
+    unfold sineBisect at h ⊢
+    split
+    · rename_i hw
+      rw [if_pos hw] at h
+      simp only [] at h ⊢
+      split
+      · rename_i hc; rw [if_pos hc] at h; simp at h
+      · rename_i hc
+        rw [if_neg hc] at h
+        split
+        · rename_i hpos; rw [if_pos hpos] at h; exact ih _ _ ⟨hpos, hinv.2⟩ h
+        · rename_i hpos; rw [if_neg hpos] at h; exact ih _ _ ⟨hinv.1, by simpa using hpos⟩ h
+    · rename_i hw
+      exact ⟨lo, hinv, hw⟩
+
+/-- With `0 ≤ lo ≤ up ≤ MaxInt64` and `up − lo ≤ 2^k`, `k+1` units of fuel are never used up:
+the Go loop `for up-lo > 1` ends within 64 iterations, the model's fuel 64 is not a restriction. -/
+theorem sine_bisect_fuel (p : SineP F) (t : Int) (n : Nat) :
+    ∀ (k : Nat) (lo up : Int), 0 ≤ lo → lo ≤ up → up ≤ maxInt64 → up - lo ≤ 2 ^ k →
+      (sineBisect o p t n (k + 1) lo up).2 ≠ .unconverged := by
+  intro k
+  induction k with
+  | zero =>
+    intro lo up h0 h1 h2 h3
+    have hw : wrapS64 (up - lo) = up - lo :=
+      wrapS64_id (by unfold inS64 minInt64; unfold maxInt64 at *; omega)
+    unfold sineBisect
+    rw [hw, if_neg (by omega)]
+    simp
+  | succ k ih =>
+    intro lo up h0 h1 h2 h3
+    have hpow : (2 : Int) ^ (k + 1) = 2 ^ k * 2 := Int.pow_succ 2 k
+    have hw : wrapS64 (up - lo) = up - lo :=
+      wrapS64_id (by unfold inS64 minInt64; unfold maxInt64 at *; omega)
+    have hhalf : (up - lo).tdiv 2 = (up - lo) / 2 := Int.tdiv_eq_ediv_of_nonneg (by omega)
+    have hmid : wrapS64 (lo + (up - lo) / 2) = lo + (up - lo) / 2 :=
+      wrapS64_id (by unfold inS64 minInt64; unfold maxInt64 at *; omega)
+    unfold sineBisect
+    rw [hw, hhalf, hmid]
+    split
+    · simp only []
+      split
+      · simp
+      · split
+        · exact ih _ _ (by omega) (by omega) h2 (by omega)
+        · exact ih _ _ h0 (by omega) (by omega) (by omega)
+    · simp
+
+/-- The two exits of the fallback.  For ANY float operations:
+(1) a return from inside the bisection has `|hits+1 − H(t+w)| < 1e-3` as computed;
+(2) a return at the end of the bisection gives the upper end `w` of a bracket `[lo, w]` at most 1ns
+wide that satisfies the bracket invariant `err(lo) > 0 ∧ ¬ err(w) > 0` as computed, i.e.
+`H(t+lo) < hits+1 ≤ H(t+w)` — PROVIDED the initial bracket `[0, hi]` satisfies it.
+Hypotheses about the float operations: only that proviso (it holds when `hits+1 > H(t)`, which the
+catch-up test has established, and `H` grows by at least `Mean−|Amp|` per ns); reading the computed
+comparisons as statements about the real schedule needs `sub`/`lt`/`abs` to be sound, which is a
+hypothesis of `sine_upper_partial`, not of this theorem. -/
+theorem sine_bisect_exit (p : SineP F) (t : Int) (n : Nat) (w : Int) (e : SineExit)
+    (h : sinePaceX o p t n = (.wait w, e)) :
+    (e = .bisected → o.lt (o.abs (sineErr o p t n w)) o.em3 = true) ∧
+    (e = .bracket → Bracket o p t n 0 (o.toInt64 (sineHi o p t n)) →
+      ∃ lo, Bracket o p t n lo w ∧ ¬ 1 < wrapS64 (w - lo)) := by
+  rcases aux_sinePaceX_cases o p t n with hc | hc | hc | hc | hc
+  · rw [hc.2] at h; simp at h
+  · rw [hc.2.2] at h
+    simp only [Prod.mk.injEq, PaceOut.wait.injEq] at h
+    exact ⟨fun he => by rw [he] at h; simp at h, fun he => by rw [he] at h; simp at h⟩
+  · rw [hc.2.2.2] at h
+    simp only [Prod.mk.injEq, PaceOut.wait.injEq] at h
+    exact ⟨fun he => by rw [he] at h; simp at h, fun he => by rw [he] at h; simp at h⟩
+  · rw [hc.2.2.2] at h; simp at h
+  · rw [hc.2.2.2] at h
+    simp only [Prod.mk.injEq, PaceOut.wait.injEq] at h
+    obtain ⟨hw, he⟩ := h
+    constructor
+    · intro hb
       rw [← hw]
-      exact aux_sineIter_converged o p t n 5 _ hconv
+      exact aux_sineBisect_bisected o p t n 64 0 _ (by rw [he, hb])
+    · intro hb hinit
+      rw [← hw]
+      exact aux_sineBisect_bracket o p t n 64 0 _ hinit (by rw [he, hb])
+
+/-- The repaired code has no un-converged exit: whenever the bracket end `time.Duration(hi)` lies
+in `[0, MaxInt64]` (which the guard `hi >= 0 && hi < float64(MaxInt64-elapsed)` is there to ensure),
+every answer is one of: stop (invalid / no bracket), catch-up, converged, bisected, bracket. -/
+theorem sine_no_unconverged_exit (p : SineP F) (t : Int) (n : Nat)
+    (hrange : 0 ≤ o.toInt64 (sineHi o p t n) ∧ o.toInt64 (sineHi o p t n) ≤ maxInt64) :
+    (sinePaceX o p t n).2 ≠ .unconverged := by
+  rcases aux_sinePaceX_cases o p t n with hc | hc | hc | hc | hc
+  · rw [hc.2]; simp
+  · rw [hc.2.2]; simp
+  · rw [hc.2.2.2]; simp
+  · rw [hc.2.2.2]; simp
+  · rw [hc.2.2.2]
+    simp only []
+    apply sine_bisect_fuel o p t n 63 0 _ (by omega) hrange.1 hrange.2
+    have : o.toInt64 (sineHi o p t n) ≤ maxInt64 := hrange.2
+    unfold maxInt64 at this
+    omega
 
 /-- Zero `StartAt` frequency/unit: unlimited rate. -/
 theorem linear_zero_unlimited (p : LinearP F) (t : Int) (n : Nat) (hz : p.per = 0 ∨ p.freq = 0) :
@@ -519,54 +704,75 @@ theorem linear_positive_wait_on_schedule (p : LinearP F) (t : Int) (n : Nat) (d 
       · rename_i hb
         exact ⟨by omega, by omega⟩
 
-/-- Every answer of the sine pacer is a stop or one of the three waiting exits. -/
-theorem aux_sine_exits (p : SineP F) (t : Int) (n : Nat) (d : Int)
-    (h : sinePace o p t n = .wait d) :
-    sinePaceX o p t n = (.wait d, .behind) ∨ sinePaceX o p t n = (.wait d, .converged) ∨
-      sinePaceX o p t n = (.wait d, .unconverged) := by
-  unfold sinePace at h
-  unfold sinePaceX at h ⊢
-  split
-  · rename_i hv; rw [if_pos hv] at h; exact absurd h PaceOut.noConfusion
-  · rename_i hv
-    rw [if_neg hv] at h
-    split
-    · rename_i hb; rw [if_pos hb] at h; left; simp only [] at h; rw [h]
-    · rename_i hb
-      rw [if_neg hb] at h
-      simp only [] at h ⊢
-      injection h with h
-      rw [h]
-      by_cases hc : (sineIter o p t n 5 (sineFirstGuess o p t n)).2 = true
-      · right; left; rw [if_pos hc]
-      · right; right; rw [if_neg hc]
-
 /-
-FULL STATEMENT (not provable: it is about `sin`/`cos` and it is false for the present code when
-the amplitude approaches the mean): along every closed loop of the sine pacer the count never
-exceeds the schedule `H` by more than one hit.
-What is proved: the closed-loop bound for ANY monotone schedule `S` (in hits) that the float
-computation is sound for on the two good exits — the catch-up test (`hits < uint64(H(t))` implies
-`hits + 1 ≤ S(t) + 1`) and the converged exit (`|hits+1 − H(t+w)| < 1e-3` implies
-`hits + 1 ≤ S(t+w) + 1`) — under the hypothesis that no call leaves through the un-converged exit.
+FULL STATEMENT (not provable here: it is about `sin`/`cos` and real analysis): along every closed
+loop of the sine pacer the count never exceeds the schedule `H` by more than one hit.
+What is proved: the closed-loop bound for ANY monotone schedule `S` (in hits) for which the float
+computation is sound at the points the pacer returns.  Hypotheses about the float operations, all
+of them and nothing else:
+  hbehind   the catch-up test is sound:   hits < uint64(H(t))            ⇒ hits+1 ≤ S(t)+1
+  hclose    the 1e-3 test is sound:       |hits+1 − H(t+w)| < 1e-3       ⇒ hits+1 ≤ S(t+w)+1
+  hnonpos   the sign test is sound:       ¬ (hits+1 − H(t+w) > 0)        ⇒ hits+1 ≤ S(t+w)+1
+  hinit     `[0, hi]` is a bracket whenever the fallback is reached (H grows ≥ Mean−|Amp| per ns)
+  hrange    `time.Duration(hi)` lies in [0, MaxInt64]
+There is no "no un-converged exit" hypothesis any more: the repaired code has no such exit
+(`sine_no_unconverged_exit`), its exits are covered by `sine_converged_exit` and `sine_bisect_exit`.
 -/
 theorem sine_upper_partial (p : SineP F) (S : Int → Int)
     (hmono : ∀ a b : Int, a ≤ b → S a ≤ S b)
-    (hbehind : ∀ (t : Int) (n : Nat) (w : Int), sinePaceX o p t n = (.wait w, .behind) →
-      ((n : Int) + 1) ≤ S (t + max w 0) + 1)
-    (hconv : ∀ (t : Int) (n : Nat) (w : Int), sinePaceX o p t n = (.wait w, .converged) →
-      ((n : Int) + 1) ≤ S (t + max w 0) + 1)
-    (hnever : ∀ (t : Int) (n : Nat) (w : Int), sinePaceX o p t n ≠ (.wait w, .unconverged))
+    (hbehind : ∀ (t : Int) (n : Nat), (n : Int) < o.toUInt64 (sineHits o p t) →
+      ((n : Int) + 1) ≤ S t + 1)
+    (hclose : ∀ (t : Int) (n : Nat) (w : Int),
+      o.lt (o.abs (sineErr o p t n w)) o.em3 = true → ((n : Int) + 1) ≤ S (t + max w 0) + 1)
+    (hnonpos : ∀ (t : Int) (n : Nat) (w : Int),
+      o.lt o.zero (sineErr o p t n w) = false → ((n : Int) + 1) ≤ S (t + max w 0) + 1)
+    (hinit : ∀ (t : Int) (n : Nat), ¬ (n : Int) < o.toUInt64 (sineHits o p t) →
+      Bracket o p t n 0 (o.toInt64 (sineHi o p t n)))
+    (hrange : ∀ (t : Int) (n : Nat),
+      0 ≤ o.toInt64 (sineHi o p t n) ∧ o.toInt64 (sineHi o p t n) ≤ maxInt64)
     (stalls : List Nat) (h0 : 0 ≤ S 0 + 1) :
     ∀ x ∈ closedLoop (sinePace o p) stalls 0 0, (x.2 : Int) ≤ S x.1 + 1 := by
   apply closedLoop_upper_of_contract (sinePace o p) S hmono _ stalls 0 0 (by simpa using h0)
   intro t n d _ hw
   have hcast : ((n + 1 : Nat) : Int) = (n : Int) + 1 := by push_cast; ring
   rw [hcast]
-  rcases aux_sine_exits o p t n d hw with h | h | h
-  · exact hbehind t n d h
-  · exact hconv t n d h
-  · exact absurd h (hnever t n d)
+  unfold sinePace at hw
+  have hX : sinePaceX o p t n = (.wait d, (sinePaceX o p t n).2) := by rw [← hw]
+  have hnf := sine_no_unconverged_exit o p t n (hrange t n)
+  rcases aux_sinePaceX_cases o p t n with hc | hc | hc | hc | hc
+  · rw [hc.2] at hw; exact absurd hw PaceOut.noConfusion
+  · rw [hc.2.2] at hw
+    injection hw with hw
+    have := hbehind t n hc.2.1
+    rw [← hw]; simpa using this
+  · have := sine_converged_exit o p t n d (by rw [hX, hc.2.2.2])
+    exact hclose t n d this
+  · rw [hc.2.2.2] at hw; exact absurd hw PaceOut.noConfusion
+  · have hex := sine_bisect_exit o p t n d _ hX
+    -- which exit of the bisection?
+    have hcases : ∀ k lo up, (sineBisect o p t n k lo up).2 = .bisected ∨
+        (sineBisect o p t n k lo up).2 = .bracket ∨ (sineBisect o p t n k lo up).2 = .unconverged := by
+      intro k
+      induction k with
+      | zero => intro lo up; simp [sineBisect]
+      | succ k ih =>
+        intro lo up
+        unfold sineBisect
+        split
+        · simp only []
+          split
+          · simp
+          · split
+            · exact ih _ _
+            · exact ih _ _
+        · simp
+    have he2 : (sinePaceX o p t n).2 = (sineBisect o p t n 64 0 (o.toInt64 (sineHi o p t n))).2 := by
+      rw [hc.2.2.2]
+    rcases hcases 64 0 (o.toInt64 (sineHi o p t n)) with hb | hb | hb
+    · exact hclose t n d (hex.1 (by rw [he2, hb]))
+    · obtain ⟨lo, hbr, _⟩ := hex.2 (by rw [he2, hb]) (hinit t n hc.2.1)
+      exact hnonpos t n d hbr.2
+    · exact absurd (by rw [he2, hb]) hnf
 
 end floats
 
@@ -583,6 +789,7 @@ def nvOps : FloatOps F64 where
   le := F64.le
   abs := F64.abs
   round := F64.round
+  ceil := fun x => if x.isFinite then F64.ofInt (-(F64.floorInt (F64.neg x))) else x
   sin := fun _ => F64.posZero
   cos := fun _ => F64.posZero
   sq := fun x => F64.mul x x
@@ -603,6 +810,21 @@ def nvSine : SineP F64 :=
 example : sinePaceX nvOps nvSine 0 0 = (.wait 10000000, .converged) := by decide +kernel
 example : sinePaceX nvOps nvSine 1000000000 3 = (.wait 0, .behind) := by decide +kernel
 example : sineInvalid nvOps { nvSine with ampFreq := 100 } = true := by decide +kernel
+
+/-- 3 hits per 10ns, zero amplitude (a straight schedule, 0.3 hits/ns): whole-nanosecond guesses
+cannot reach the 1e-3 target. -/
+def nvSineFast : SineP F64 :=
+  { period := 1000000000, meanFreq := 3, meanPer := 10, ampFreq := 0, ampPer := 10,
+    startAt := F64.posZero }
+
+/-- Before commit 7529829 the last guess was returned although it had not converged: 3ns, where
+the schedule is at 0.9 < 1 hits — one hit released early, and so on for every hit. -/
+theorem sine_unconverged_old_witness :
+    sinePaceXOld nvOps nvSineFast 0 0 = (.wait 3, .unconverged) := by decide +kernel
+/-- The repaired code bisects `[0, 4]` and returns the upper end of the 1ns bracket `[3, 4]`. -/
+example : sinePaceX nvOps nvSineFast 0 0 = (.wait 4, .bracket) := by decide +kernel
+example : Bracket nvOps nvSineFast 0 0 0 (nvOps.toInt64 (sineHi nvOps nvSineFast 0 0)) := by
+  unfold Bracket; decide +kernel
 example : linearPace nvOps { freq := 10, per := 1000000000, slope := F64.ofNat 1 } 1000000000 11
     = .wait 136363636 := by decide +kernel
 
